@@ -40,7 +40,7 @@ constexpr unsigned kMaskFresh = bit(K_INIT) | bit(K_EXEC) | bit(K_EXEC_ALL) | bi
 constexpr unsigned kMaskFull = kMaskStruct | kMaskFresh;
 
 constexpr PictID kMissingPid = 424242;
-constexpr int kEditAddBase = 0, kEditAddTerm = 1, kEditErase = 2, kEditTermText = 3;
+constexpr int kEditAddBase = 0, kEditAddTerm = 1, kEditErase = 2, kEditTermText = 3, kEditAddPair = 4;   // add-pair: two terms, the first listed mentions the second
 constexpr int kInitMerge = 0, kInitSyntFF = 1, kInitSyntFL = 2, kInitSyntLF = 3, kInitSyntInvalid = 9;
 constexpr int kSeedKinds = 4;
 
@@ -301,6 +301,33 @@ std::string cstLoose(const RSForm& f, EntityUID uid) {
   std::string s; put(s, static_cast<uint64_t>(rs.type)); put(s, shape(rs.definition)); put(s, rs.convention); put(s, shape(tx.term.Text().Raw())); put(s, shape(tx.definition.Raw()));
   return s;
 }
+// strict variant: the _ERROR marker is NOT swallowed
+std::string shapeStrict(const std::string& def) {
+  std::string out;
+  for (size_t i = 0; i < def.size(); ++i) {
+    const char ch = def[i];
+    const bool startOfId = std::strchr("XCSDAFPT", ch) != nullptr && i + 1 < def.size() && std::isdigit(static_cast<unsigned char>(def[i + 1])) && (i == 0 || !std::isalnum(static_cast<unsigned char>(def[i - 1])));
+    out += ch;
+    if (startOfId) { while (i + 1 < def.size() && std::isdigit(static_cast<unsigned char>(def[i + 1]))) ++i; out += '#'; }
+  }
+  return out;
+}
+std::vector<std::string> idsOf(const std::string& def) {
+  std::vector<std::string> ids;
+  for (size_t i = 0; i < def.size(); ++i) {
+    const char ch = def[i];
+    const bool startOfId = std::strchr("XCSDAFPT", ch) != nullptr && i + 1 < def.size() && std::isdigit(static_cast<unsigned char>(def[i + 1])) && (i == 0 || !std::isalnum(static_cast<unsigned char>(def[i - 1])));
+    if (!startOfId) continue;
+    std::string id(1, ch); while (i + 1 < def.size() && std::isdigit(static_cast<unsigned char>(def[i + 1]))) id += def[++i];
+    ids.push_back(id);
+  }
+  return ids;
+}
+std::string cstStrict(const RSForm& f, EntityUID uid) {
+  const auto& rs = f.GetRS(uid); const auto& tx = f.GetText(uid);
+  std::string s; put(s, static_cast<uint64_t>(rs.type)); put(s, shapeStrict(rs.definition)); put(s, rs.convention); put(s, shapeStrict(tx.term.Text().Raw())); put(s, shapeStrict(tx.definition.Raw()));
+  return s;
+}
 std::string joined(const std::multiset<std::string>& m) { std::string s; for (auto& x : m) s += "<" + x + ">"; return s; }
 
 // ------------------------------------------------------------------------------------------------------------
@@ -315,7 +342,7 @@ struct Sys {
   int maxExtra{ 2 };        // ... and by this many insertions beyond the seed's own size
   int maxSources{ 8 };
   bool richInit{ false };   // also the (first,last) / (last,first) equation tables
-  unsigned editKinds{ 0xF }; // bit e = edit kind e enabled
+  unsigned editKinds{ 0x1F }; // bit e = edit kind e enabled
   unsigned editFlags{ 3 };   // 1 = pending variant, 2 = announced variant
   bool editBasesOnly{ false };
   int saveOrders{ 2 };
@@ -420,9 +447,10 @@ struct Sys {
     if (on(K_EDIT)) for (int i = 0; i < n; ++i) if (const auto* src = w.AttachedOpen(picts[static_cast<size_t>(i)]); src != nullptr) {
       const bool own = firstOwn(src->schema).has_value();
       if (editBasesOnly && isOp(i)) continue;
-      for (int e : { kEditAddBase, kEditAddTerm, kEditErase, kEditTermText }) {
+      for (int e : { kEditAddBase, kEditAddTerm, kEditErase, kEditTermText, kEditAddPair }) {
         if ((editKinds & (1U << e)) == 0) continue;
         if ((e == kEditErase || e == kEditTermText) && !own) continue;
+        if (e == kEditAddPair && (!isOp(i) || own)) continue;   // user additions to an operation's result, once
         if (editFlags & 1) ops.push_back({ K_EDIT, i, e, 0 });
         if (editFlags & 2) ops.push_back({ K_EDIT, i, e, 1 });
       }
@@ -447,7 +475,7 @@ struct Sys {
     case K_INIT: return "InitFor(" + p(op.a) + "," + (op.b == kInitMerge ? "merge" : op.b == kInitSyntFF ? "synt{first=first}" : op.b == kInitSyntFL ? "synt{first=last}" : op.b == kInitSyntLF ? "synt{last=first}" : "synt{42=42}") + ")";
     case K_EXEC: return "Execute(" + p(op.a) + ")";
     case K_EXEC_ALL: return "ExecuteAll";
-    case K_EDIT: return std::string("Edit(") + p(op.a) + "," + (op.b == kEditAddBase ? "add-base" : op.b == kEditAddTerm ? "add-term" : op.b == kEditErase ? "erase-first-own" : "retext-first-own") + (op.c ? ",announce)" : ",pending)");
+    case K_EDIT: return std::string("Edit(") + p(op.a) + "," + (op.b == kEditAddBase ? "add-base" : op.b == kEditAddTerm ? "add-term" : op.b == kEditErase ? "erase-first-own" : op.b == kEditAddPair ? "add-pair(first mentions second)" : "retext-first-own") + (op.c ? ",announce)" : ",pending)");
     case K_ANNOUNCE: return "Announce(" + p(op.a) + ")";
     case K_CLOSE: return "Close(" + p(op.a) + ")";
     case K_OPEN: return "Open(" + p(op.a) + ")";
@@ -457,7 +485,7 @@ struct Sys {
   }
 
   // ---------------------------------------------------------------------------------------------------------
-  struct PreExec { std::map<PictID, std::multiset<std::string>> ownBefore; };
+  struct PreExec { std::map<PictID, std::multiset<std::string>> ownBefore, ownBeforeStrict; };   // strict: additions that mention nothing but other additions
 
   static PreExec snapshotOwn(const World& w) {
     PreExec pre;
@@ -466,6 +494,14 @@ struct Sys {
       if (src == nullptr) continue;
       auto& m = pre.ownBefore[pid];
       for (const auto uid : src->schema.List()) if (!src->schema.Mods().IsTracking(uid)) m.insert(cstLoose(src->schema, uid));
+      // an addition all of whose mentions name other (carried-over) additions has no reason to lose any of them: compared without the marker allowance
+      std::set<std::string> ownAliases; for (const auto uid : src->schema.List()) if (!src->schema.Mods().IsTracking(uid)) ownAliases.insert(src->schema.GetRS(uid).alias);
+      for (const auto uid : src->schema.List()) if (!src->schema.Mods().IsTracking(uid)) {
+        const auto& rs = src->schema.GetRS(uid); const auto& tx = src->schema.GetText(uid);
+        bool onlyOwn = true; size_t mentions = 0;
+        for (const auto& text : { rs.definition, tx.term.Text().Raw(), tx.definition.Raw() }) for (const auto& id : idsOf(text)) { ++mentions; onlyOwn = onlyOwn && ownAliases.count(id) != 0; }
+        if (onlyOwn && mentions > 0) pre.ownBeforeStrict[pid].insert(cstStrict(src->schema, uid));
+      }
     }
     return pre;
   }
@@ -507,6 +543,13 @@ struct Sys {
         for (const auto& x : it->second) { const auto f = rest.find(x); if (f == rest.end()) { all = false; break; } rest.erase(f); }
         if (!all) c.fail("C19:user-additions-lost", "a constituent the user added to the previous result is missing after re-execution", joined(ownNow), joined(it->second));
         if (!it->second.empty()) c.rep.count("exec_with_user_additions");
+      }
+      if (const auto it = pre.ownBeforeStrict.find(pid); it != pre.ownBeforeStrict.end()) {
+        std::multiset<std::string> strictNow; for (const auto uid : res->schema.List()) if (!res->schema.Mods().IsTracking(uid)) strictNow.insert(cstStrict(res->schema, uid));
+        bool all = true;
+        for (const auto& x : it->second) { const auto f = strictNow.find(x); if (f == strictNow.end()) { all = false; break; } strictNow.erase(f); }
+        if (!all) c.fail("C19:user-addition-corrupted", "a user addition that mentions only other user additions (all carried over) changed on re-execution", joined(strictNow), joined(it->second));
+        c.rep.count("exec_with_addition_mentioning_addition");
       }
     }
   }
@@ -600,6 +643,11 @@ struct Sys {
         auto& f = src->schema;
         if (op.b == kEditAddBase) { f.Emplace(CstType::base); done = true; }
         else if (op.b == kEditAddTerm) { addTerm(f, ""); done = true; }
+        else if (op.b == kEditAddPair) {   // two own terms; the one listed FIRST mentions the one listed after it
+          const auto first = f.Emplace(CstType::term, "1"); const auto second = addTerm(f, "");
+          const std::string later = f.GetRS(second).alias;
+          f.SetExpressionFor(first, later + "\\" + later); done = true;
+        }
         else if (const auto target = firstOwn(f); target.has_value()) {
           if (op.b == kEditErase) done = f.Erase(*target);
           else done = f.SetTermFor(*target, f.GetText(*target).term.Text().Raw() == "t1" ? "t2" : "t1");
@@ -787,7 +835,7 @@ int main(int argc, char** argv) {
                  ((sys.kinds & bit(K_INSERT_BASE)) ? "InsertBase; " : "") + ((sys.kinds & bit(K_CONNECT)) ? "ConnectPict2Src(base, new source with schema in {X1 | X1,D1:=X1\\X1 | empty}); " : "") +
                  ((sys.kinds & bit(K_INSERT_OP)) ? "InsertOperation(p,q) all ordered pairs incl. p=q + missing operands; " : "") + ((sys.kinds & bit(K_ERASE)) ? "Erase(p) every pictogram + missing; " : "") +
                  ((sys.kinds & bit(K_INIT)) ? "InitFor(o, merge | synt{1-entry table on the parents' base sets} | synt{42=42}); " : "") + ((sys.kinds & bit(K_EXEC)) ? "Execute(o) every operation + one base; " : "") +
-                 ((sys.kinds & bit(K_EXEC_ALL)) ? "ExecuteAll; " : "") + ((sys.kinds & bit(K_EDIT)) ? "Edit(p, {" + std::string((sys.editKinds & 1) ? "add base set " : "") + ((sys.editKinds & 2) ? "| add term " : "") + ((sys.editKinds & 4) ? "| erase first own constituent " : "") + ((sys.editKinds & 8) ? "| change a term text only" : "") + "}) x {" +
+                 ((sys.kinds & bit(K_EXEC_ALL)) ? "ExecuteAll; " : "") + ((sys.kinds & bit(K_EDIT)) ? "Edit(p, {" + std::string((sys.editKinds & 1) ? "add base set " : "") + ((sys.editKinds & 2) ? "| add term " : "") + ((sys.editKinds & 4) ? "| erase first own constituent " : "") + ((sys.editKinds & 8) ? "| change a term text only" : "") + ((sys.editKinds & 16) ? " | add two terms to an operation's result, the first listed mentions the second" : "") + "}) x {" +
                    ((sys.editFlags & 1) ? "pending " : "") + ((sys.editFlags & 2) ? "announced" : "") + "} on every attached source" + (sys.editBasesOnly ? " of a base pictogram; " : " incl. operation results (= user additions); ") : std::string()) +
                  ((sys.kinds & bit(K_ANNOUNCE)) ? "Announce(p)=SaveState; " : "") + ((sys.kinds & bit(K_CLOSE)) ? "Close(p); " : "") + ((sys.kinds & bit(K_OPEN)) ? "Open(p); " : "") +
                  ((sys.kinds & bit(K_SAVELOAD)) ? (sys.saveOrders > 1 ? "save->load of the whole document via JSON (items as stored | reversed | connections interleaved by child); " : "save->load of the whole document via JSON; ") : "") +
